@@ -112,7 +112,8 @@ func pruneScenario(k scenKey) *Scenario {
 	sc.Pruning = true
 	b := &builder{g: g, r: r, sc: sc}
 	sc.BaseWorld = b.world()
-	for i := 0; i < 4+r.Intn(3); i++ {
+	// (the pruner never prunes near the head; reverts stay above the retention floor)
+	for i := 0; i < 6+r.Intn(2); i++ {
 		b.store(eventfulSpec(g, r, ""))
 	}
 	b.prune(uint64(1 + r.Intn(2)))
